@@ -14,8 +14,9 @@ from ..report import Check
 from ..values import AIter, ExtObj
 
 SOURCES = [
-    ("in-memory / buffered seekable file", dict(seekable=True, buffered=True)),
-    ("non-seekable buffered source (BufferedReader over a pipe)", dict(seekable=False, buffered=True)),
+    ("in-memory buffer (BytesIO)", dict(seekable=True, buffered=True)),
+    ("seekable BufferedReader over a raw file doing short reads (plain file, gzip member boundaries)", dict(seekable=True, buffered=False, user_buffered_reader=True)),
+    ("non-seekable BufferedReader over a pipe/socket doing short reads", dict(seekable=False, buffered=False, user_buffered_reader=True)),
     ("non-seekable raw source with short reads (socket, pipe, HTTP response)", dict(seekable=False, buffered=False)),
 ]
 
@@ -31,7 +32,7 @@ PARSERS = [
 
 def check(chk: Check) -> None:
     prog = chk.program
-    chk.rule("C09.TAINT.exact-header", "the bytes handed to the framing detector come from a read that is exact-or-EOF for the receiver's class", floor=30)
+    chk.rule("C09.TAINT.exact-header", "the bytes handed to the framing detector come from a read that is exact-or-EOF for the receiver's class", floor=40)
     chk.rule("C09.OWN.wrapper", "once the input is wrapped in a BufferedReader every later read goes through the wrapper", floor=30)
     chk.rule("C09.TABLE.frame-reader", "length-prefixed frames are read from a buffered object (caller's buffered stream or pyjelly's wrapper)", floor=15)
     chk.trusted += ["io model: BufferedReader.read(n) is exact-or-EOF, peek(n) performs at most one raw read and may return fewer bytes; a caller-supplied buffered stream's read(n) is exact-or-EOF (documented input contract)"]
@@ -74,7 +75,7 @@ def check(chk: Check) -> None:
                                 bad = hdr_val.attrs["via"]
                         elif not isinstance(hdr_val, bytes):
                             bad = f"untracked value {hdr_val!r}"
-                    branch = "seekable-branch" if skw["seekable"] else "non-seekable-branch"
+                    branch = ("seekable-branch" if skw["seekable"] else "non-seekable-branch") + (":caller-buffered" if skw.get("user_buffered_reader") else "")
                     if not hint_calls:
                         chk.fail("C09.TAINT.exact-header", inst, "pyjelly.parse.ioutils.get_options_and_frames", "the framing detector is never consulted")
                     elif bad:
@@ -96,6 +97,8 @@ def check(chk: Check) -> None:
                     if delim:
                         plp = [e for e in ios if e["method"] == "parse_length_prefixed"]
                         unbuffered = [e for e in plp if isinstance(e["recv"], ExtObj) and e["recv"].kind == "io.stream" and not e["recv"].attrs["buffered"]]
+                        # reads on the raw object below a BufferedReader (the caller's or pyjelly's) bypass its buffer
+                        unbuffered += [e for e in ios if e["method"] in ("read", "read1", "readinto") and isinstance(e["recv"], ExtObj) and e["recv"].kind == "io.stream" and e["recv"].attrs.get("wrapped_by_user")]
                         if not plp:
                             chk.fail("C09.TABLE.frame-reader", inst, "pyjelly.parse.ioutils.frame_iterator", "delimited input is not read with parse_length_prefixed")
                         elif unbuffered:
